@@ -12,7 +12,9 @@ import (
 	"strings"
 	"sync"
 	"sync/atomic"
+	"syscall"
 	"testing"
+	"time"
 
 	"golang.org/x/net/internal/zzverif/vx"
 )
@@ -994,9 +996,38 @@ func c44Run(c *vx.Ctx, base string, g c44Cfg) {
 	})
 }
 
+// c44TempBase returns the directory under which every case creates (and
+// removes) its own fresh native tree. It is the test's TempDir (which honours
+// TMPDIR); only when TMPDIR is unset and /dev/shm is usable, a directory there
+// is used instead (removed by t.Cleanup): the native side then costs ~10 us
+// instead of ~500 us per system call on a busy disk.
+func c44TempBase(t *testing.T) string {
+	if os.Getenv("TMPDIR") == "" {
+		if fi, err := os.Stat("/dev/shm"); err == nil && fi.IsDir() {
+			// leftovers of killed runs
+			if old, _ := filepath.Glob("/dev/shm/verif-c44-*"); len(old) > 0 {
+				for _, o := range old {
+					if fi, err := os.Stat(o); err == nil && time.Since(fi.ModTime()) > 2*time.Hour {
+						os.RemoveAll(o)
+					}
+				}
+			}
+			if d, err := os.MkdirTemp("/dev/shm", "verif-c44-"); err == nil {
+				t.Cleanup(func() { os.RemoveAll(d) })
+				return d
+			}
+		}
+	}
+	return t.TempDir()
+}
+
 func TestVerif_C44(t *testing.T) {
 	vx.Run(t, "C44", func(c *vx.Ctx) {
-		base := c.T.TempDir()
+		base := c44TempBase(c.T)
+		var sfs syscall.Statfs_t
+		if syscall.Statfs(base, &sfs) == nil {
+			c.Note("reference_fs", fmt.Sprintf("native trees under %s (statfs type 0x%x)", filepath.Dir(base), sfs.Type))
+		}
 		var allFlags []string
 		for _, f := range c44Flags {
 			allFlags = append(allFlags, f.name)
@@ -1011,7 +1042,7 @@ func TestVerif_C44(t *testing.T) {
 			paths: paths, flags: allFlags, maxH: vx.Pick(c, 1, 2),
 			write: []string{"", "ab", "cdefg"}, read: []int{1, 10},
 			seek: []int64{-1, 0, 1, 10}, rdir: []int{-1, 0, 1},
-			depth: vx.Pick(c, 3, 5),
+			depth: vx.Pick(c, 4, 5),
 			seeds: [][]c44Op{nil, {mk("/a"), mk("/b")},
 				{mk("/a"), {K: "open", P: "/a/x", F: "RDWR|CREATE"}, {K: "write", H: 0, D: "cdefg"}, {K: "close", H: 0}},
 				{{K: "open", P: "/a", F: "RDWR|CREATE"}, {K: "write", H: 0, D: "cdefg"}}},
